@@ -149,6 +149,12 @@ class BuiltinMixin(object):
             return V(BOOL, core.llen(b) == 0)
         if b.ty in (EMPTY_LIST,):
             return V(BOOL, core.llen(a) == 0)
+        if a.ty != b.ty and isinstance(a.ty, List) and isinstance(b.ty, List):
+            # a list of T against a list of Optional[T]: the former is lifted element-wise
+            if isinstance(a.ty.elem, Opt) and a.ty.elem.elem == b.ty.elem:
+                b = self.adapt(b, a.ty)
+            elif isinstance(b.ty.elem, Opt) and b.ty.elem.elem == a.ty.elem:
+                a = self.adapt(a, b.ty)
         return V(BOOL, core.seq_eq(a, b))
 
     def sf_is_none(self, e, st):
@@ -193,6 +199,9 @@ class BuiltinMixin(object):
     def sf_box(self, e, st):
         """box(x): x as a dynamically typed value"""
         return self.adapt(self.ev1(e.args[0], st), PY)
+
+    def sf_concat_all(self, e, st):
+        return core.concat_all(self.ev1(e.args[0], st))
 
     def sf_single(self, e, st):
         a = self.ev1(e.args[0], st)
